@@ -227,8 +227,8 @@ class ndarray(object):
             return a, b, ia.shape, ob.kind
         if isinstance(other, SymBool):
             v, k = other.e, 'b'
-        elif isinstance(other, bool):
-            v, k = z3.BoolVal(other), 'b'
+        elif isinstance(other, (bool, _NoMask, _np.bool_)):
+            v, k = z3.BoolVal(bool(other)), 'b'
         else:
             v, k = lift(other), symx.kind_of(other)
         a = self.cells()
